@@ -60,7 +60,7 @@ ASSUMPTIONS = [
 
 PREFIXES = (REPO.rstrip('/') + '/ombott/', echo.__file__.rsplit('/', 1)[0] + '/')
 KINDS = ['echo_get', 'echo_post', 'echo_head', 'upload', 'raise_err', 'raise_resp', 'teapot', 'crash', 'gen',
-         'notfound', 'notallowed', 'json404', 'badchunk', 'chunked_ok', 'big', 'badpath', 'echo_put', 'hookcrash', 'badchunk_json', 'badjson', 'goodjson', 'badchunk_sizeline', 'busy_str', 'limit_num', 'upload_typed', 'upload_plain', 'badmultipart', 'boom_fixed_url']
+         'notfound', 'notallowed', 'json404', 'badchunk', 'chunked_ok', 'big', 'badpath', 'echo_put', 'hookcrash', 'badchunk_json', 'badjson', 'goodjson', 'badchunk_sizeline', 'busy_str', 'limit_num', 'upload_typed', 'upload_plain', 'badmultipart', 'boom_fixed_url', 'fixed_get', 'fixed_post', 'fixed_fail']
 _MARK = re.compile(r'Z\d+z')
 
 
@@ -161,6 +161,14 @@ def environ_of(spec):
         kw = {'chunked': True}
     elif kind == 'boom_fixed_url':
         path = '/boom'
+    elif kind in ('fixed_get', 'fixed_post', 'fixed_fail'):
+        path = '/fixed'
+        if kind == 'fixed_post':
+            method = 'POST'
+            body = f'f=f{m}'.encode()
+            kw = {'content_length': len(body), 'content_type': 'application/x-www-form-urlencoded'}
+        if kind == 'fixed_fail':
+            headers['X-Fail'] = '1'
     elif kind == 'busy_str':
         path = '/busy/' + m
     elif kind == 'limit_num':
@@ -170,7 +178,7 @@ def environ_of(spec):
     else:
         raise HarnessError(f'unknown kind {kind}')
     query = f'm={m}&x=1' + ('&hc=1' if kind == 'hookcrash' else '')
-    if kind == 'boom_fixed_url':
+    if kind in ('boom_fixed_url', 'fixed_get', 'fixed_post', 'fixed_fail'):
         query = 'x=1'
     env = make_environ(method, path, query, headers, stream=io.BytesIO(body or b''), **kw)
     env['sim.m'] = m
